@@ -11,6 +11,7 @@ class Ty:
 
 
 Int, Real, Bool = Ty("int"), Ty("real"), Ty("bool")
+Obj = Ty("obj")      # an opaque object (e.g. `self` of a method that does not use it)
 
 
 def Arr(elem, ndim=1):
@@ -34,7 +35,12 @@ class Contract:
     def __init__(self, key, props, params, requires=None, ensures=None, modifies=(), loops=None, ghost=None,
                  returns=None, raises=None, call_ghost=None, gen=None, notes="", obligations_for=None,
                  assumed=None, after_loop=None, hints=None, rt_only=None, ghost_vars=None, ghost_after=None,
-                 exit_hints=None):
+                 exit_hints=None, vec_counts=None, after_assign=None, abstract_mul=False, entry_hints=None):
+        self.entry_hints = list(entry_hints or [])     # lemma calls made at function entry
+        # vec_counts: [(spec name, [arg exprs])] for the count_nonzero calls of the function, in source order
+        self.vec_counts = list(vec_counts or [])
+        self.after_assign = dict(after_assign or {})
+        self.abstract_mul = abstract_mul
         self.exit_hints = exit_hints or {}      # {loop ordinal: [lemma calls]} facts added on the loop's normal exits
         # ghost_vars: {name: init expr} local ghost variables; ghost_after: {callee: {ghost var: expr}} ghost updates
         # executed right after each call to `callee` (the callee's ghost arguments are visible as g_<name>)
